@@ -765,6 +765,11 @@ class Unit:
                 if where.endswith('all'):
                     if len(hits) < 1:
                         raise LostAnchor('%s: proof anchor /%s/ matched %d times' % (disp, rx, len(hits)))
+                elif occ == -1:
+                    # @before[last]: the last matching line (the function's tail, whether written `x` or `return x;`)
+                    if len(hits) < 1:
+                        raise LostAnchor('%s: proof anchor /%s/ matched 0 times' % (disp, rx))
+                    hits = [hits[-1]]
                 elif occ is not None:
                     if len(hits) < occ:
                         raise LostAnchor('%s: proof anchor /%s/ matched %d times, occurrence %d wanted' % (disp, rx, len(hits), occ))
